@@ -2,14 +2,36 @@
    Instances by computation on the executable model (symbol level, both rates, both
    schedules, stale junk in every work position that is not received): for every
    configuration with K + R <= 3, EVERY subset of the shards with at least K members.
-   The unbounded theorem (for all configurations, subsets and data) is the algebraic
-   development described in DESIGN.md section 3 and is not finished: C01 is claimed as
-   partial proof + correspondence (round-trip oracle on the implementation). *)
+   General theorem, low rate (C01_low): for EVERY configuration of the envelope, every pair of
+   engine schedules (encoder, decoder), every set of received shards with at least
+   original_count members, every data and every junk in the unreceived work positions, the
+   decoder returns the missing originals.  Proof: Lagrange/LCH polynomial theory over the
+   MathComp field GF(2^16) (LchPoly.v), Walsh-Hadamard convolution for eval_poly (Walsh.v,
+   Locator.v), truncated transforms (Trunc.v). *)
 From Coq Require Import NArith Bool List Lia.
 From RS.Gen Require Import Prelude GenConsts.
 From RS.Model Require Import Field Tables Sched Codec Spec.
+From RS.Proofs Require Import RoundLow.
 Import ListNotations.
 Local Open Scope N_scope.
+
+(* received shards are counted on the work positions: originals at [0, K), recovery at
+   [m, m + R) with m = next_power_of_two(K) *)
+Theorem C01_low : forall (e e' : engine) (K R : N) (recv : N -> bool) (k kn : nat) (w work : list N),
+  1 <= K -> 1 <= R -> npow2 K = 2 ^ N.of_nat k -> 2 ^ N.of_nat k + R <= 65536 ->
+  (kn <= 16)%nat -> 2 ^ N.of_nat k + R <= 2 ^ N.of_nat kn ->
+  Forall (fun x => x < 65536) w -> (N.to_nat (2 ^ N.of_nat k) <= length w)%nat ->
+  length work = Nat.pow 2 kn -> Forall (fun x => x < 65536) work ->
+  (* the decoder's work vector holds the received originals and recovery symbols; anything else is junk *)
+  (forall i, i < K -> recv i = true -> nth (N.to_nat i) work 0 = nth (N.to_nat i) w 0) ->
+  (forall j, j < R -> recv (2 ^ N.of_nat k + j) = true ->
+     nth (N.to_nat (2 ^ N.of_nat k + j)) work 0 = nth (N.to_nat j) (encode_low sym_ops e K R w) 0) ->
+  (* at least original_count shards were received *)
+  (N.to_nat K <= cnt recv 0 K + cnt recv (2 ^ N.of_nat k) (2 ^ N.of_nat k + R))%nat ->
+  forall i, i < K -> recv i = false ->
+  nth (N.to_nat i) (snd (decode_low_work sym_ops e' K R recv work)) 0 = nth (N.to_nat i) w 0.
+Proof. intros e e' K R recv k kn w work; intros. eapply (decode_low_roundtrip e e' K R recv k kn); eassumption. Qed.
+Print Assumptions C01_low.
 
 Definition data (K : N) : list N := map (fun i => (i * 40503 + 977) mod 65536) (range 0 K).
 Definition junkv (i : N) : N := (i * 7919 + 4242) mod 65536.
